@@ -302,6 +302,11 @@ class Shell:
             except ValueError as e:
                 print("Error:", e)
             else:
+                if not 0 <= b < len(self.debugger.program.code):
+                    # A label after the last instruction does not name an instruction.
+                    print("Error: no instruction at `{}`.".format(args[0]))
+                    return
+
                 self.debugger.set_breakpoint(b)
                 loc = self.debugger.op(b).loc
                 print("Breakpoint set in file {0.path}, line {0.line}.".format(loc))
